@@ -1,0 +1,13 @@
+//go:build verif
+
+package file
+
+// VerifHook, when set, is called at named schedule points of the file transport.
+// Only compiled with the `verif` build tag (verification harness).
+var VerifHook func(point string)
+
+func verifPoint(point string) {
+	if h := VerifHook; h != nil {
+		h(point)
+	}
+}
